@@ -904,7 +904,10 @@ def rule_dbg_pure(ctx):
     pure = prog_purity(prog)
     READS = ("std::sync::atomic::Atomic::load", "atomic::Atomic::load", "std::cell::Cell::get", "std::cell::UnsafeCell::get",
              "std::cell::RefCell::borrow", "std::vec::Vec::len", "std::vec::Vec::is_empty", "std::vec::Vec::capacity",
-             "std::sync::Arc::strong_count", "std::thread::LocalKey::with", "std::thread::LocalKey::try_with")
+             "std::sync::Arc::strong_count", "std::thread::LocalKey::with", "std::thread::LocalKey::try_with",
+             # reading the clock is a read (that the very first call also creates the default collector is not an effect any
+             # property depends on: `debug_assert!(stamp <= global_epoch())` is fine)
+             "ebr_impl::default::global_epoch")
     memo = {}
 
     def readonly(target, depth=0):
